@@ -649,10 +649,25 @@ def _docless(body: List[ast.stmt]) -> List[ast.stmt]:
 
 
 class Inliner:
-    def __init__(self, module_tree: ast.Module, vocab: Set[str], global_classes: Optional[Dict[str, ast.ClassDef]] = None):
+    def __init__(self, module_tree: ast.Module, vocab: Set[str], global_classes: Optional[Dict[str, ast.ClassDef]] = None,
+                 global_funcs: Optional[Dict[str, ast.FunctionDef]] = None):
         self.tree = module_tree
         self.vocab = vocab
         self.global_classes = global_classes or {}
+        # module-level helpers of other modules of the package (unique names only), reachable here through an import
+        self.global_funcs = global_funcs or {}
+        self.imported: Set[str] = set()          # names bound by `from <package module> import name`
+        self.module_aliases: Set[str] = set()    # names bound by `import pkg.mod as m` / `from pkg import mod`
+        for n in ast.walk(module_tree):
+            if isinstance(n, ast.ImportFrom) and (n.level or (n.module or "").startswith("BPTK_Py")):
+                for al in n.names:
+                    self.imported.add(al.asname or al.name)
+                    self.module_aliases.add(al.asname or al.name)
+            elif isinstance(n, ast.Import):
+                for al in n.names:
+                    if al.name.startswith("BPTK_Py"):
+                        self.module_aliases.add(al.asname or al.name.split(".")[0])
+        self._attr_types: Dict[str, Dict[str, str]] = {}
         self.module_funcs: Dict[str, ast.FunctionDef] = {n.name: n for n in module_tree.body if isinstance(n, ast.FunctionDef)}
         self.class_methods: Dict[str, Dict[str, ast.FunctionDef]] = {}
         for c in module_tree.body:
@@ -700,7 +715,32 @@ class Inliner:
                     return nd[f.id], "plain"
             if f.id in self.module_funcs:
                 return self.module_funcs[f.id], "plain"
+            if f.id in self.imported and f.id in self.global_funcs:
+                return self.global_funcs[f.id], "plain"
             return None
+        if isinstance(f, ast.Attribute) and f.attr not in self.vocab:
+            # a helper that lives elsewhere in the package: module.helper(...), Class.helper(...), <collaborator object>.helper(...)
+            name = f.attr
+            recv = f.value
+            if isinstance(recv, ast.Name) and recv.id in self.module_aliases and recv.id not in ("self", "cls") and name in self.global_funcs:
+                return self.global_funcs[name], "plain"
+            if isinstance(recv, ast.Name) and recv.id != cls and recv.id in self.global_classes and recv.id not in ("self", "cls"):
+                ms = self._methods_of(recv.id)
+                if name in ms:
+                    h = ms[name]
+                    if any(isinstance(d, ast.Name) and d.id == "staticmethod" for d in h.decorator_list):
+                        return h, "static"
+                    if any(isinstance(d, ast.Name) and d.id == "classmethod" for d in h.decorator_list):
+                        return h, "method"
+                    return h, "plain"
+            k = self._receiver_class(recv, cls, scopes)
+            if k is not None:
+                ms = self._methods_of(k)
+                if name in ms:
+                    h = ms[name]
+                    if any(isinstance(d, ast.Name) and d.id == "staticmethod" for d in h.decorator_list):
+                        return h, "static"
+                    return h, "method"
         if isinstance(f, ast.Attribute) and isinstance(f.value, ast.Name) and cls:
             name = f.attr
             if name in self.vocab:
@@ -716,6 +756,57 @@ class Inliner:
                 if f.value.id == cls and not any(isinstance(d, ast.Name) and d.id == "classmethod" for d in h.decorator_list):
                     return h, "plain"       # K.h(self, ...): explicit receiver
                 return h, "method"
+        return None
+
+    def _methods_of(self, cls: str) -> Dict[str, ast.FunctionDef]:
+        if cls not in self._mro_cache:
+            self._mro_cache[cls] = self._methods_mro(cls)
+        return self._mro_cache[cls]
+
+    def _receiver_class(self, recv: ast.AST, cls: Optional[str], scopes: List[ast.FunctionDef]) -> Optional[str]:
+        """Class of a collaborator object, where the code says it: K(...) itself, a local bound once to K(...), or self.attr with
+        `self.attr = K(...)` somewhere in the class (K a class of the package that is not the caller's own)."""
+        def ctor(v: ast.AST) -> Optional[str]:
+            if isinstance(v, ast.Call):
+                nm = v.func.id if isinstance(v.func, ast.Name) else (v.func.attr if isinstance(v.func, ast.Attribute) else None)
+                if nm in self.global_classes and nm != cls:
+                    return nm
+            return None
+        k = ctor(recv)
+        if k:
+            return k
+        if isinstance(recv, ast.Name) and recv.id not in ("self", "cls") and scopes:
+            vals = []
+            for n in ast.walk(scopes[-1]):
+                if isinstance(n, ast.Assign) and any(isinstance(t, ast.Name) and t.id == recv.id for t in n.targets):
+                    vals.append(n.value)
+            if len(vals) == 1:
+                return ctor(vals[0])
+            return None
+        if isinstance(recv, ast.Attribute) and isinstance(recv.value, ast.Name) and recv.value.id == "self" and cls:
+            if cls not in self._attr_types:
+                table: Dict[str, Set[str]] = {}
+                seen = set()
+                todo = [cls]
+                while todo:
+                    cn = todo.pop()
+                    if cn in seen:
+                        continue
+                    seen.add(cn)
+                    cdef = next((c for c in self.tree.body if isinstance(c, ast.ClassDef) and c.name == cn), None) or self.global_classes.get(cn)
+                    if cdef is None:
+                        continue
+                    for n in ast.walk(cdef):
+                        if isinstance(n, ast.Assign):
+                            for t in n.targets:
+                                if isinstance(t, ast.Attribute) and isinstance(t.value, ast.Name) and t.value.id == "self":
+                                    table.setdefault(t.attr, set()).add(ctor(n.value) or "?")
+                    for b in cdef.bases:
+                        bn = b.id if isinstance(b, ast.Name) else (b.attr if isinstance(b, ast.Attribute) else None)
+                        if bn:
+                            todo.append(bn)
+                self._attr_types[cls] = {a: next(iter(v)) for a, v in table.items() if len(v) == 1 and "?" not in v}
+            return self._attr_types[cls].get(recv.attr)
         return None
 
     def _methods_mro(self, cls: str, seen=None) -> Dict[str, ast.FunctionDef]:
@@ -1142,11 +1233,12 @@ class Inliner:
         return done
 
 
-def inline_module(tree: ast.Module, vocab: Set[str], global_classes: Optional[Dict[str, ast.ClassDef]] = None, any_helpers: bool = True) -> int:
+def inline_module(tree: ast.Module, vocab: Set[str], global_classes: Optional[Dict[str, ast.ClassDef]] = None, any_helpers: bool = True,
+                  global_funcs: Optional[Dict[str, ast.FunctionDef]] = None) -> int:
     """Rewrite every function of the module in place; innermost functions first, two passes."""
     if not any_helpers and all(n.name in vocab for n in ast.walk(tree) if isinstance(n, (ast.FunctionDef, ast.AsyncFunctionDef))):
         return 0                    # every function of the package is an anchor the rules know by name: nothing to look through
-    inl = Inliner(tree, vocab, global_classes)
+    inl = Inliner(tree, vocab, global_classes, global_funcs)
     total = 0
     for _pass in range(4):
         done = 0
